@@ -16,6 +16,8 @@ def run(tier):
     n = 1 if profiles.check_single(prog, rep, "Nickname", "prepare") is not None else 0
     rep.floor("Nickname::prepare extracted", n, 1)
     profiles.nickname_enforce(prog, rep)
+    # the static forms (PrecisFastInvocation) are part of the public operations: they must forward to these
+    rep.floor("static-form methods checked", profiles.fast_invocation(prog, rep, "Nickname"), 3)
     profiles.normalizer_shape(prog, rep, "normalization_form_nfkc", "nfkc")
     # the Nickname operations are built on stabilize: its contract (C13) is a premise of this property
     profiles.include_leaves(rep, [("C13", "stabilize contract"), ("C12", "space rule"), ("C14", "derived property behind FreeformClass"), ("C02", "FreeformClass::allows")])
